@@ -31,7 +31,10 @@ type c08Scn struct {
 	BOM   bool   `json:"bom,omitempty"`
 	// Side: before looking at a record's fields the program reads a line of another CSV file
 	// into a variable (getline var <file must not disturb the current record)
-	Side bool          `json:"side,omitempty"`
+	Side bool `json:"side,omitempty"`
+	// Via: how the records are obtained: "" (pattern-action main loop), "getline" (plain getline in
+	// a BEGIN loop over the main input), "getfile" (getline <"f0" in a BEGIN loop; Where must be "file")
+	Via  string        `json:"via,omitempty"`
 	Data core.Bytes    `json:"data,omitempty"`
 	D    core.Delivery `json:"delivery"`
 	Enum string        `json:"enum,omitempty"`
@@ -41,6 +44,8 @@ type c08Scn struct {
 	CRLF   bool           `json:"crlf,omitempty"`
 	// WarmMode: the writer Interpreter is reused: it first wrote the same rows in this other output mode ("csv"/"tsv")
 	WarmMode string `json:"warm_mode,omitempty"`
+	// ToFile: the writer prints to a file (print ... > "out") instead of standard output
+	ToFile bool `json:"to_file,omitempty"`
 }
 
 type c08Rec struct {
@@ -86,6 +91,29 @@ const c08ReadProg = `{ if (side) getline sidevar < "side"; for (i = 1; i <= NF; 
 const c08ReadHdrProg = `NR == 1 { for (i = 1; i in FIELDS; i++) hdr(i, FIELDS[i]) }
 { for (i = 1; i <= NF; i++) fld(NR, i, $i); rec(NR, NF, $0); if (nm != "") named(@nm) } END { fin(NR) }`
 const c08RebuildProg = `BEGIN { n = nrows(); for (r = 1; r <= n; r++) { $0 = ""; k = ncols(r); for (i = 1; i <= k; i++) $i = v(r, i); print } }`
+const c08RebuildFileProg = `BEGIN { n = nrows(); for (r = 1; r <= n; r++) { $0 = ""; k = ncols(r); for (i = 1; i <= k; i++) $i = v(r, i); print > "out" } }`
+
+// c08ViaProg is the reader program for records obtained by getline in a BEGIN loop; n names the
+// record counter (NR for the main input; a getline from a file does not count in NR).
+func c08ViaProg(header bool, cond, n string, own bool) string {
+	body := ""
+	if own {
+		body = "n++; "
+	}
+	if header {
+		body += "if (" + n + " == 1) for (i = 1; i in FIELDS; i++) hdr(i, FIELDS[i]); "
+	} else {
+		body += "if (side) getline sidevar < \"side\"; "
+	}
+	body += "for (i = 1; i <= NF; i++) fld(" + n + ", i, $i); rec(" + n + ", NF, $0); "
+	if header {
+		body += "if (nm != \"\") named(@nm); "
+	}
+	if own {
+		return "BEGIN { while (" + cond + ") { " + body + "} fin(n + 0) }"
+	}
+	return "BEGIN { while (" + cond + ") { " + body + "} } END { fin(NR) }"
+}
 
 type c08Engine struct{}
 
@@ -158,6 +186,10 @@ func (c08Engine) Gen(r *core.Rand, tier string, i int) any {
 		if r.Chance(1, 4) {
 			sc.WarmMode = core.Pick(r, []string{"csv", "tsv"})
 		}
+		sc.ToFile = r.Chance(1, 4)
+		if r.Chance(1, 4) {
+			sc.Via = "getline"
+		}
 		sep := string(c08SepRune(sc))
 		alpha := []string{"a", "b", " ", sep, sep, "\"", "\"\"", "\n", "#", "x", "", "é", "\xff", "\t", ","}
 		nrows := r.Range(1, 4)
@@ -181,6 +213,12 @@ func (c08Engine) Gen(r *core.Rand, tier string, i int) any {
 	if r.Chance(1, 6) {
 		sc.Where = "file"
 		sc.Side = r.Bool()
+	}
+	if r.Chance(1, 5) {
+		sc.Via = "getline"
+		if sc.Where == "file" && r.Bool() {
+			sc.Via = "getfile"
+		}
 	}
 	sep := string(c08SepRune(sc))
 	alpha := []string{sep, sep, sep, "\"", "\"", "\"\"", "\r", "\n", "\n", "\r\n", " ", "a", "b", "x", "\x00"}
@@ -299,6 +337,12 @@ func c08ExecRead(sc *c08Scn, data []byte, d core.Delivery, nm string, log *core.
 	if sc.Header {
 		src = c08ReadHdrProg
 	}
+	switch sc.Via {
+	case "getline":
+		src = c08ViaProg(sc.Header, "(getline) > 0", "NR", false)
+	case "getfile":
+		src = c08ViaProg(sc.Header, `(getline < "f0") > 0`, "n", true)
+	}
 	prog, err := parse("c08", src, c08funcs)
 	if err != nil {
 		core.Fatal("C08: parse: %v", err)
@@ -333,7 +377,9 @@ func c08ExecRead(sc *c08Scn, data []byte, d core.Delivery, nm string, log *core.
 		_ = fs.Put("f0", data)
 		_ = fs.Put("side", []byte("s1,s2,s3\nt1,t2\n\"u,1\",u2,u3,u4\n"))
 		cfg.OpenFile = fs.Open
-		cfg.Args = []string{"f0"}
+		if sc.Via != "getfile" {
+			cfg.Args = []string{"f0"}
+		}
 		interp.VerifWrapReader = func(r io.Reader) io.Reader {
 			if shaped != nil {
 				return r
@@ -444,7 +490,7 @@ func (e c08Engine) Run(scAny any, keep bool) core.Outcome {
 	var out core.Outcome
 	data := sc.input()
 	desc := func(d core.Delivery) string {
-		return fmt.Sprintf("mode=%q header=%v bom=%v via_vars=%v where=%s data=%q chunks=%v eof_with_data=%v", c08ModeString(sc, true), sc.Header, sc.BOM, sc.ViaVars, sc.Where, string(sc.Data), clipInts(d.Chunks), d.EOFWithData)
+		return fmt.Sprintf("mode=%q header=%v bom=%v via_vars=%v where=%s%s data=%q chunks=%v eof_with_data=%v", c08ModeString(sc, true), sc.Header, sc.BOM, sc.ViaVars, sc.Where, c08ViaString(sc), string(sc.Data), clipInts(d.Chunks), d.EOFWithData)
 	}
 	if !c08Valid(sc) {
 		obs := c08ExecRead(sc, data, core.Delivery{}, "", core.NewLog(false))
@@ -515,6 +561,13 @@ func (e c08Engine) Run(scAny any, keep bool) core.Outcome {
 	}
 	out.Fail = runOne(sc.D)
 	return out
+}
+
+func c08ViaString(sc *c08Scn) string {
+	if sc.Via == "" {
+		return ""
+	}
+	return " via=" + sc.Via
 }
 
 // shiftChunks removes the first n bytes from a schedule.
@@ -642,7 +695,7 @@ func c08Check(sc *c08Scn, d core.Delivery, obs, base *c08Obs, ref []c08RefRec, r
 func c08RunRoundTrip(sc *c08Scn, keep bool) core.Outcome {
 	var out core.Outcome
 	log := core.NewLog(keep)
-	desc := fmt.Sprintf("mode=%q writer=%s crlf=%v via_vars=%v rows=%q", c08ModeString(sc, false), sc.Writer, sc.CRLF, sc.ViaVars, sc.Rows)
+	desc := fmt.Sprintf("mode=%q writer=%s to_file=%v crlf=%v via_vars=%v%s rows=%q", c08ModeString(sc, false), sc.Writer, sc.ToFile, sc.CRLF, sc.ViaVars, c08ViaString(sc), sc.Rows)
 	if !c08Valid(sc) {
 		return out
 	}
@@ -651,6 +704,9 @@ func c08RunRoundTrip(sc *c08Scn, keep bool) core.Outcome {
 	var src string
 	if sc.Writer == "rebuild" {
 		src = c08RebuildProg
+		if sc.ToFile {
+			src = c08RebuildFileProg
+		}
 	} else {
 		var sb strings.Builder
 		sb.WriteString("BEGIN {")
@@ -661,6 +717,9 @@ func c08RunRoundTrip(sc *c08Scn, keep bool) core.Outcome {
 					sb.WriteString(", ")
 				}
 				fmt.Fprintf(&sb, "v(%d, %d)", r+1, i+1)
+			}
+			if sc.ToFile {
+				sb.WriteString(" > \"out\"")
 			}
 			sb.WriteString(";")
 		}
@@ -683,6 +742,15 @@ func c08RunRoundTrip(sc *c08Scn, keep bool) core.Outcome {
 		if sc.Sep != "" {
 			cfg.CSVOutput.Separator, _ = utf8.DecodeRuneInString(sc.Sep)
 		}
+	}
+	var wfs *core.SimFS
+	if sc.ToFile {
+		var ferr error
+		if wfs, ferr = core.NewSimFS(scratchBase(), nil); ferr != nil {
+			core.Fatal("C08: simfs: %v", ferr)
+		}
+		defer wfs.Remove()
+		cfg.OpenFile = wfs.Open
 	}
 	c08cur = &c08Obs{}
 	var wres execResult
@@ -717,6 +785,14 @@ func c08RunRoundTrip(sc *c08Scn, keep bool) core.Outcome {
 		return out
 	}
 	wire := sink.Bytes()
+	if sc.ToFile {
+		if len(wire) != 0 {
+			out.One(log.Hash(), true)
+			out.Fail = &core.Failure{Oracle: "roundtrip", Detail: fmt.Sprintf("%s: rows printed to a file, yet standard output received %q", desc, wire)}
+			return out
+		}
+		wire, _ = wfs.Get("out")
+	}
 	// reader
 	rsc := *sc
 	rsc.Kind, rsc.Header, rsc.Comment, rsc.Where, rsc.BOM = "input", false, "", "stdin", false
@@ -785,7 +861,18 @@ func (c08Engine) Shrink(scAny any) []any {
 		add(func(c *c08Scn) { c.ViaVars = false })
 	}
 	if sc.Where == "file" {
-		add(func(c *c08Scn) { c.Where, c.Side = "stdin", false })
+		add(func(c *c08Scn) {
+			c.Where, c.Side = "stdin", false
+			if c.Via == "getfile" {
+				c.Via = ""
+			}
+		})
+	}
+	if sc.Via != "" {
+		add(func(c *c08Scn) { c.Via = "" })
+	}
+	if sc.ToFile {
+		add(func(c *c08Scn) { c.ToFile = false })
 	}
 	if sc.Side {
 		add(func(c *c08Scn) { c.Side = false })
